@@ -29,12 +29,15 @@ var fieldKinds = []struct{ name, typ string }{
 	{"untagged-generic-dependency", "UG[string]"},
 	// an interface that declares a copier of its own (k8s runtime.Object style)
 	{"self-copying-interface", "Copier"},
+	// a by-value chain whose MIDDLE struct has no container of its own: the containers sit one struct further down
+	{"plain-struct-wrapping-a-struct-with-containers", "Wrap"},
 }
 
 var aux = map[string]string{
 	"Sub":    "// Sub is tagged.\n// +gengo:deepcopy\ntype Sub struct {\n\tS []int\n\tM map[string]string\n\tN int\n}\n",
 	"Dep":    "// Dep is reached only as a dependency.\ntype Dep struct {\n\tS []string\n\tK string\n}\n",
 	"Deep":   "// Deep nests three levels.\n// +gengo:deepcopy\ntype Deep struct {\n\tMid Mid\n\tTop []int\n}\n\ntype Mid struct {\n\tLeaf Leaf\n\tL    []int\n}\n\ntype Leaf struct {\n\tM map[string]int\n\tV float64\n}\n",
+	"Wrap":   "// Wrap has no slice or map itself.\ntype Wrap struct {\n\tID    int\n\tInner Inner\n\tName  string\n}\n\n// Inner holds the containers.\ntype Inner struct {\n\tTags  []string\n\tAttrs map[string]int\n}\n",
 	"MyInt":  "type MyInt int\n",
 	"MyMap":  "type MyMap map[string]string\n",
 	"Iface":  "type Iface interface {\n\tM() string\n}\n\ntype impl string\n\nfunc (i impl) M() string { return string(i) }\n",
@@ -60,13 +63,16 @@ func (p Prog) userMethods(pkg string, need map[string]bool) string {
 	if p.Generic {
 		recv = []string{"A[T]"}
 	}
-	for _, k := range []string{"Sub", "Dep", "Deep", "MyInt", "MyMap"} {
+	for _, k := range []string{"Sub", "Dep", "Deep", "MyInt", "MyMap", "Wrap"} {
 		if need[k] {
 			recv = append(recv, k)
 		}
 	}
 	if need["Deep"] {
 		recv = append(recv, "Mid", "Leaf")
+	}
+	if need["Wrap"] {
+		recv = append(recv, "Inner")
 	}
 	for _, k := range []string{"G", "UG"} {
 		if need[k] {
@@ -158,7 +164,7 @@ func (p Prog) source(pkg string) (src, check, methods string) {
 		case "G":
 			cb.WriteString("\tverifkit.CheckDeepCopy(&checks, &fails, \"G[int]\", new(G[int]))\n")
 		case "UG":
-			cb.WriteString("\tverifkit.CheckDeepCopy(&checks, &fails, \"UG[string]\", new(UG[string]))\n")
+			cb.WriteString("\tverifkit.CheckDeepCopyIfAny(&checks, &fails, \"UG[string]\", new(UG[string]))\n")
 		case "Copier":
 			// hand-built values: the field holds a typed nil pointer / a populated implementation
 			for i, f := range p.Fields {
@@ -169,9 +175,14 @@ func (p Prog) source(pkg string) (src, check, methods string) {
 		case "Iface":
 			// an interface type has no DeepCopy of its own
 		case "Deep":
-			cb.WriteString("\tverifkit.CheckDeepCopy(&checks, &fails, \"Deep\", new(Deep))\n\tverifkit.CheckDeepCopy(&checks, &fails, \"Mid\", new(Mid))\n")
-		default:
+			cb.WriteString("\tverifkit.CheckDeepCopy(&checks, &fails, \"Deep\", new(Deep))\n\tverifkit.CheckDeepCopyIfAny(&checks, &fails, \"Mid\", new(Mid))\n")
+		case "Wrap":
+			cb.WriteString("\tverifkit.CheckDeepCopyIfAny(&checks, &fails, \"Wrap\", new(Wrap))\n\tverifkit.CheckDeepCopyIfAny(&checks, &fails, \"Inner\", new(Inner))\n")
+		case "Sub":
 			fmt.Fprintf(&cb, "\tverifkit.CheckDeepCopy(&checks, &fails, %q, new(%s))\n", k, k)
+		default:
+			// types without a tag of their own, reached as dependencies
+			fmt.Fprintf(&cb, "\tverifkit.CheckDeepCopyIfAny(&checks, &fails, %q, new(%s))\n", k, k)
 		}
 	}
 	cb.WriteString("\treturn\n}\n")
@@ -245,7 +256,7 @@ func checkProgs(c *core.Ctx, progs []Prog) {
 			for _, f := range p.Fields {
 				var ft string
 				switch fieldKinds[f].typ {
-				case "Sub", "Dep", "Deep", "MyInt", "MyMap":
+				case "Sub", "Dep", "Deep", "MyInt", "MyMap", "Wrap":
 					ft = name + "." + fieldKinds[f].typ
 				case "G[int]", "UG[string]":
 					ft = name + "." + fieldKinds[f].typ
@@ -424,7 +435,7 @@ func run(c *core.Ctx) {
 		c.Bound("three_field_lists_over_same_package_kinds", []string{"tagged-struct", "untagged-dependency-struct", "nested-3-levels", "defined-scalar", "defined-map", "same-package-interface"})
 	}
 	if c.Thorough() {
-		reduced := []int{2, 4, 5, 6, 7, 8, 9, 12, 16, 17}
+		reduced := []int{2, 4, 5, 6, 7, 8, 9, 12, 16, 17, 19}
 		for _, a := range reduced {
 			for _, b := range reduced {
 				for _, d := range reduced {
@@ -432,7 +443,7 @@ func run(c *core.Ctx) {
 				}
 			}
 		}
-		c.Bound("three_field_lists_over_kinds", []string{"[]int", "tagged-struct", "untagged-dependency-struct", "nested-3-levels", "defined-scalar", "defined-map", "error", "instantiated-generic", "same-package-interface"})
+		c.Bound("three_field_lists_over_kinds", []string{"[]int", "tagged-struct", "untagged-dependency-struct", "nested-3-levels", "defined-scalar", "defined-map", "error", "instantiated-generic", "same-package-interface", "plain-struct-wrapping-a-struct-with-containers"})
 	}
 	// hand-written methods next to the generated ones (the second run loads both)
 	for _, p := range append([]Prog{}, all...) {
